@@ -463,7 +463,7 @@ Fixpoint exec (fuel : nat) (c : stmt) (st : store) {struct fuel} : outcome :=
         | Normal st' => exec f b st'
         | o => o
         end
-    | SIf c a b =>
+    | SIf _ c a b =>
         match eval c st with
         | Er e => Err e
         | Ok v => if truthy v then exec f a st else exec f b st
